@@ -540,7 +540,10 @@ func genBatch(t *rapid.T) batch {
 }
 
 func props() []rp.Prop {
-	return []rp.Prop{rp.P[batch]{Name: "batch", Checks: ev.Pick(120, 9600) / ev.Shards(), Gen: genBatch, Check: check}}
+	return []rp.Prop{
+		rp.P[batch]{Name: "batch", Checks: ev.Pick(120, 9600) / ev.Shards(), Gen: genBatch, Check: check},
+		rp.P[discCase]{Name: "discovery", Checks: ev.Pick(40, 3000) / ev.Shards(), Gen: genDiscovery, Check: checkDiscovery},
+	}
 }
 
 // TestAAAColdStart runs first in the process: with NO broadcast address configured, several goroutines make the
